@@ -287,7 +287,7 @@ def plan(prop, tier, seed, find):
         for sd in find([], famv, 6 if tier == "quick" else 32, seed * 1000 + 1, dyn=dict(notes="cache_hit_in_compile", dd="lel", width=1, roots=0, hist=4, hist_seed=0, props="C09", tries=16)):
             for dd in DD3:
                 ii += 1
-                inv.append(P(kind="dd", dd=dd, comp="relaxed", seed=sd, width="1", roots="0", rub=("hslack" if ii % 3 == 0 else "none"), lb=("sym" if ii % 2 else "none"), hist=4, hist_seed=(ii % 2), rev=0, props="C09", **famv, **limv))
+                inv.append(P(kind="dd", dd=dd, comp="relaxed", seed=sd, width="1", roots="0", rub=("hslack" if ii % 3 == 0 else "none"), lb=("sym" if ii % 2 else "none"), hist=4, hist_seed=(ii % 3), rev=0, props="C09", **famv, **limv))
         parc = _par_bundles(tier, seed, "C09", ["plain"], variants=[dict(threads=2, preempt=1, cache=1, fringe="simple", mapyield=1), dict(threads=2, preempt=2, cache=1, fringe="nodup"), dict(threads=3, preempt=1, cache=1, fringe="simple")], nseeds=(1 if tier == "quick" else 6))
         return dict(engine="symx", bundles=inv + _solve_bundles(tier, seed, find, "C09", ["plain"], fams=fams, caches=("1",), nseeds=(2 if tier == "quick" else 12)) + parc + cached_directed("C09"), prefixes=["C09:", "nontermination"], vacuity=dict(explored_ge2=1, explored_ge4=1, threshold_checked=1, second_step=1), functions=FUNCS_SOLVE + ["kani: Cache::must_explore"], bounds=bound_solve + "; SimpleCache only, re-convergent structures (2 base states per layer); diagram level: the solver step (restricted then relaxed compilation against the real SimpleCache, cut-set kept as open set) on every reachable root with symbolic incumbent, followed by one or two further steps on seeded cut-set nodes, threshold invariant checked after each step",
                     nontrivial=("decided sub-case in which the solver processed >= 2 sub-problems on some path", lambda r: r["notes"].get("explored_ge2", 0) > 0), kani=["C09"])
@@ -353,6 +353,8 @@ def plan(prop, tier, seed, find):
         b = [P(kind="cache", len=(5 if tier == "quick" else 7), seed=base + 1 + 5 * k, count=5, **lim) for k in range(nb)]
         for th, ops, pre in ([(2, 1, 2), (2, 2, 2), (3, 1, 2)] if tier == "quick" else [(2, 1, 3), (2, 2, 3), (3, 1, 3), (3, 2, 2), (4, 1, 2)]):
             b.append(P(kind="cacheconc", threads=th, ops=ops, preempt=pre, seed=base + 7, count=(2 if tier == "quick" else 6), _engine="sched", **lim))
+        for k in range(4 if tier == "quick" else 16):
+            b.append(P(kind="domorder", len=(3 if tier == "quick" else 4), use_value=(0 if k % 4 == 3 else 1), seed=base + 20 + k, count=1, **lim))
         for th, uv in [(2, 0), (2, 1), (3, 1)]:
             b.append(P(kind="domconc", threads=th, preempt=2, use_value=uv, seed=base + 9, count=1, _engine="sched", **lim))
         return dict(engine="symx+sched", bundles=b, prefixes=["C18:"], vacuity=dict(get_over_two_updates=1, clear_layer=1, preemption=1), functions=["ddo::SimpleCache::{initialize, get_threshold, update_threshold, clear_layer, clear}", "ddo::SimpleDominanceChecker::is_dominated_or_insert (concurrent phase)", "dashmap facade: every get / entry / insert / clear call of a worker is a scheduling choice"],
